@@ -120,7 +120,9 @@ ASSUMPTIONS = [
 NOT_YET_PROVED = [
     "round(x, 4) of Frac_Time, Frac_Ideal, PT_Util, Ideal_Time (tolerance of the correspondence; theorems speak "
     "about the exact ratios)",
-    "table parsing from text (regexes) and fingerprint matching (single table assumed)",
+    "table parsing from text: modelled (Model/LogParse.lean, compared with the real parser on generated log texts; theorems "
+    "parsed_tables_wellformed, first_row_wins, stops_at_autopilot, outside_table_ignored), but no theorem links the parsed table to "
+    "the LogRow list the utilization model starts from; fingerprint matching is not modelled (single table assumed)",
     "row order of the CSV (pandas stable sort) is modelled and compared but no theorem is stated about it",
 ]
 LEVEL_TEXT = ("Lean theorems over an executable model of compute_utilization / make_utilization_event / "
